@@ -426,3 +426,18 @@ def sym_getitem(interp, obj, idx):
         from .models import m_dict_getitem
         return m_dict_getitem(interp, obj, idx)
     raise Unsupported("subscript %r[%r]" % (obj, idx))
+
+
+def text_eq(a, b):
+    """a == b for any mix of str/bytes, SStr and token strings: bool or SBool (for contracts)."""
+    if isinstance(a, FmtStr):
+        a = fmt_to_sstr(a)
+    if isinstance(b, FmtStr):
+        b = fmt_to_sstr(b)
+    if isinstance(a, (SStr, SBytes)):
+        r = a.__eq__(b)
+    elif isinstance(b, (SStr, SBytes)):
+        r = b.__eq__(a)
+    else:
+        return a == b
+    return False if r is NotImplemented else r
